@@ -15,14 +15,18 @@
      offset  = false  solve_simple reads w_vector[eq_count]
      offset  = true   solve_simple reads w_vector[w_offset + eq_count]
    solve_auto always reads w_vector[equation] with one running counter. *)
-Require Import List Arith ZArith.
+Require Import List Arith ZArith QArith Qcanon.
 Import ListNotations.
 Require Import LV.Lin.MatL.
 
 Section W.
 Variable M : Type.            (* measurement values *)
 Variable R : Type.            (* weights *)
-Variable wt : M -> R.         (* 1 / sqrt(nf^2 + tr^2 |m|^2) *)
+Variable wt : M -> R.         (* 1 / sqrt(nf^2 + tr^2 |m|^2): ABSTRACT here -- the theorems about this
+                                 section are about which measurement a weight was computed from and
+                                 which element a consumer reads, not about the formula; the formula
+                                 (and the same expression as chi-square divisor in calc_pvalue) is
+                                 compared numerically by the white-box tie only *)
 Variable r0 : R.              (* 0.0 from calloc *)
 
 Definition systems := list (list M).
@@ -72,6 +76,16 @@ Definition dof_leakage (counts : list Z) (df : Z) : Z :=
   fold_left (fun df n => if Z.ltb 1 n then df + 2 * (n - 1) else df) counts df.
 Definition dof (unknowns : Z) (eq_counts leak_counts : list Z) : Z :=
   dof_leakage leak_counts (dof_systems unknowns eq_counts).
-(* "if (df < 1) return 0.0;" and "if (pvalue < vn_pvalue_limit) -> EDOM" *)
 Definition zsum (l : list Z) : Z := fold_right Z.add 0 l.
 End Dof.
+
+(* ---- the end of _vnacal_new_solve_calc_pvalue and the test in _vnacal_new_solve_internal ----
+     "if (df < 1) return 1.0;"          (no degrees of freedom: nothing to test; 1.0 since fix D59,
+                                          the code returned 0.0 before)
+     "return chisq_pvalue(df, chisq);"   the chi-square tail function is a parameter (not modelled)
+     "if (pvalue < vn_pvalue_limit) -> EDOM"   with 0 < vn_pvalue_limit <= 1 (vnacal_new_set_pvalue_limit) *)
+Section Pvalue.
+Variable tail : Z -> Qc -> Qc.
+Definition pvalue_of (df : Z) (chisq : Qc) : Qc := if Z.ltb df 1 then 1%Qc else tail df chisq.
+Definition rejected (pvalue limit : Qc) : bool := if Qclt_le_dec pvalue limit then true else false.
+End Pvalue.
